@@ -338,6 +338,32 @@ def a_amount_table(C, rep, rid):
         tu = [c for c in b.calls if c.name == "tlv::ProtoBuf::get_tu64"]
         rep.anchor(rid, "get_tu64 on the amount record", len(tu), 1, fn=fn)
         for c in tu:
+            # the decoder must see the whole field: nothing but type conversions between get(33003).value and get_tu64
+            recv = strip(X.operand(b, c.args[0]))
+            bad = [y for y in walk(recv) if y[0] == "call" and y[1] not in ("tlv::SerializedTlvStream::get", "tlv::FromBytes::from_bytes", "bytes::Bytes::from", "bytes::Bytes::copy_from_slice", "std::vec::Vec::as_slice", "bytes::Bytes::from_static")
+                   and not y[1].startswith("tlv::") and y[1] not in ("std::convert::TryFrom::try_from", "std::convert::TryInto::try_into")]
+            rep.ob(rid, not bad, fn, "the whole amount field is decoded", where=c.loc, how=show(recv)[:90],
+                   detail="" if not bad else "the amount field is passed through %s before decoding: a field longer than 8 bytes is not rejected as malformed" % bad[0][1])
+            # every `None` of the optional amount comes from 'record absent' or 'field malformed'
+            outs = [l for l in b.locals_of_type(r"^std::option::Option<u64>$")]
+            for l in outs:
+                defs = [dd for dd in b.defs.get(l, []) if not dd[2] and dd[3] == "rv" and dd[4]["k"] == "agg"]
+                if not any(dd[4].get("variant") == "Some" and any(y[0] == "call" and y[3][1] == c.bb for y in walk(strip(X.operand(b, dd[4]["ops"][0])))) for dd in defs if dd[4]["ops"]):
+                    continue
+                for dd in defs:
+                    if dd[4].get("variant") != "None":
+                        continue
+                    okn = False
+                    for cnd, truth in lib.dominating_conditions(b, dd[0]):
+                        if cnd.kind == "enum":
+                            pe = strip(X.place(b, cnd.place))
+                            if truth == ("None",) and any(y[0] == "call" and y[1] == "tlv::SerializedTlvStream::get" for y in walk(pe)) and not any(y[0] == "call" and y[1] == "tlv::ProtoBuf::get_tu64" for y in walk(pe)):
+                                okn = True
+                            if truth == ("Err",) and all(a2[0] == "call" and a2[3][1] == c.bb for a2 in alts(pe)):
+                                okn = True
+                    rep.ob(rid, okn, fn, "amount is absent only if the record is missing or malformed", where=loc(dd[5]), how="None under get()==None or get_tu64()==Err",
+                           detail="" if okn else "a well-formed amount field can be treated as absent (at %s): a disagreeing amount is then not rejected" % loc(dd[5]))
+        for c in tu:
             ar = ml.arms_of_result(b, X, c)
             if ar and ar[1].get("Err") is not None:
                 err = ar[1]["Err"]
